@@ -1,6 +1,25 @@
 import HydroVerif.Proto
 import HydroVerif.Model.C20
+import HydroVerif.Model.C20X
 open HydroVerif HydroVerif.C20
+
+instance : IntCast Float := ⟨Float.ofInt⟩
+
+/-- a double as `c_paretofront` distinguishes it -/
+def xOfFloat (x : Float) : XVal Float :=
+  if x.isInf then (if x > 0 then .pinf else .ninf) else xOfOpt (if x.isNaN then none else some x)
+
+/-- exact token: `nan`, `inf`, `-inf` or a rational -/
+def xTok? (s : String) : Option (XVal Rat) :=
+  if s = "nan" then some .nan else if s = "inf" then some .pinf else if s = "-inf" then some .ninf
+  else (ratTok? s).map .fin
+
+def boxOp? (s : String) : Option BoxOp :=
+  if s = "draw" then some (.draw true true) else if s = "draw_empty" then some (.draw true false)
+  else if s = "draw_fail" then some (.draw false true) else if s = "draw_fail_early" then some (.draw false false)
+  else if s = "show_count" then some .showCount else if s = "set_ylim" then some .setYlim
+  else if s = "set_color" then some .setColor else if s = "items" then some .setItems
+  else if s = "hide_count" then some .hideCount else none
 
 def errName : Err → String
   | .pmaxLength => "pmaxLength" | .pmaxLePmin => "pmaxLePmin" | .zeroSamples => "zeroSamples"
@@ -24,8 +43,14 @@ def fmtBoxVals (v : Option (BoxVals Float)) : String :=
   | none => "nan"
   | some b => ",".intercalate ([b.w1, b.b1, b.med, b.b2, b.w2, b.mean, b.max, b.min].map hexOfFloat)
 
+def fmtStatsList (l : List (Nat × Option (BoxVals Float))) : String :=
+  ";".intercalate (l.map fun g => s!"{g.1}:{fmtBoxVals g.2}")
+
 def rankMethod? (s : String) : Option RankMethod :=
   if s = "average" then some .average else if s = "min" then some .min else if s = "max" then some .max else none
+
+def rankMethodX? (s : String) : Option RankMethodX :=
+  if s = "first" then some .first else if s = "dense" then some .dense else (rankMethod? s).map .std
 
 def handle (toks : List String) : String :=
   match toks with
@@ -62,12 +87,76 @@ def handle (toks : List String) : String :=
     | some cst, some x =>
       let x := x.map optNan
       let r := if meth = "sorted" then some (standardNormalSorted cst x)
+               else if meth = "first" ∨ meth = "dense" then (rankMethodX? meth).map fun m => standardNormalX m cst x
                else (rankMethod? meth).map fun m => standardNormal m cst x
       match r with
       | some (.ok (u, ranks)) => "ok " ++ fmtFloatList u ++ " " ++ fmtFloatList ranks
       | some (.error e) => "err " ++ errName e
       | none => "bad-op"
     | _, _ => "bad-op"
+  | ["snormq", meth, cst, x] =>
+    -- exact-rational instance: integer data (any magnitude) are ranked as given
+    match ratTok? cst, parseRatList? x with
+    | some cst, some x =>
+      let x := x.map some
+      let r := if meth = "sorted" then some (standardNormalSorted cst x)
+               else (rankMethodX? meth).map fun m => standardNormalX m cst x
+      match r with
+      | some (.ok (u, ranks)) => "ok " ++ fmtRatList u ++ " " ++ fmtRatList ranks
+      | some (.error e) => "err " ++ errName e
+      | none => "bad-op"
+    | _, _ => "bad-op"
+  | ["paretox", o, d] =>
+    -- the kernel on any doubles (NaN, ±inf, finite); Float arithmetic is the rounding
+    match o.toInt?, parseFloatMat? d with
+    | some o, some d => fmtNatList (paretoFrontX id (Float.ofInt o) (d.map fun r => r.map xOfFloat))
+    | _, _ => "bad-op"
+  | ["paretoxq", o, d] =>
+    -- the same kernel on exact rationals with IEEE rounding to 53 bits after the subtraction and the product
+    match o.toInt?, allSome ((matToks d).map fun r => allSome (r.map xTok?)) with
+    | some o, some d => fmtNatList (paretoFrontX rnd53 ((o : Int) : Rat) d)
+    | _, _ => "bad-op"
+  | ["paretow", nd, o, d] =>
+    match nd.toNat?, o.toInt?, parseFloatMat? d with
+    | some nd, some o, some d =>
+      match paretoFrontWrap nd o (d.map fun r => r.map optNan) with
+      | .ok l => "ok " ++ fmtNatList l
+      | .error e => "err " ++ errName e
+    | _, _, _ => "bad-op"
+  | ["pposr", n, cst] =>
+    -- exact rationals, every operation rounded to 53 bits: the doubles numpy computes
+    match n.toNat?, ratTok? cst with
+    | some n, some cst =>
+      match pposR rnd53 n cst with
+      | .ok l => "ok " ++ fmtRatList l
+      | .error e => "err " ++ errName e
+    | _, _ => "bad-op"
+  | ["lhsunit", n, nvars, perms, rs] =>
+    match n.toNat?, nvars.toNat?, parseNatMat? perms, parseFloatMat? rs with
+    | some n, some nvars, some perms, some rs =>
+      match lhsUnit n nvars perms rs with
+      | .ok cols => "ok " ++ fmtFloatMat cols
+      | .error e => "err " ++ errName e
+    | _, _, _, _ => "bad-op"
+  | ["boxdf", bcov, wcov, ncol, d] =>
+    match floatTok? bcov, floatTok? wcov, ncol.toNat?, parseFloatMat? d with
+    | some bcov, some wcov, some ncol, some d =>
+      let cols := if d.isEmpty then List.replicate ncol [] else d
+      match boxStatsCols (cols.map fun c => c.map optFinite) bcov wcov with
+      | .ok l => "ok " ++ fmtStatsList l
+      | .error e => "err " ++ errName e
+    | _, _, _, _ => "bad-op"
+  | ["boxhist", drawn, countText, strNames, ops] =>
+    match allSome ((listToks ops).map boxOp?) with
+    | some ops =>
+      let s : BoxObj Unit := { stats := (), drawn := drawn = "1", elems := false, countText := countText = "1", strNames := strNames = "1" }
+      let r := boxRun s ops
+      fmtNatList (r.2.map fun b => if b then 1 else 0) ++ s!" {if r.1.drawn then 1 else 0} {if r.1.countText then 1 else 0}"
+    | none => "bad-op"
+  | ["vnpts", given, nrows] =>
+    match nrows.toNat? with
+    | some nrows => toString (violinNpts given.toNat? nrows)
+    | none => "bad-op"
   | ["pareto", o, d] =>
     match o.toInt?, parseFloatMat? d with
     | some o, some d => fmtNatList (paretoFront (Float.ofInt o) (d.map fun r => r.map optNan))
@@ -135,6 +224,13 @@ def handle (toks : List String) : String :=
       | .ok (some (sel, x)) => "ok " ++ fmtFloatList sel ++ " " ++ fmtFloatList x
       | .error e => "err " ++ errName e
     | _, _, _, _ => "bad-op"
+  | ["normr", y] =>
+    -- exact rationals, the three operations rounded to 53 bits
+    match parseRatList? y with
+    | some y => match normaliseR rnd53 y with
+      | some l => "ok " ++ fmtRatList l
+      | none => "none"
+    | none => "bad-op"
   | ["norm", y] =>
     match parseFloatList? y with
     | some y => match normalise y with
